@@ -18,6 +18,7 @@ regenerated definition).
 import Ampverif.Gen.C19Table
 import Ampverif.Lemmas.C19Cos
 import Ampverif.Lemmas.C19Sum
+import Ampverif.Lemmas.C19Event
 import Mathlib.Tactic.Ring
 import Mathlib.Tactic.IntervalCases
 
@@ -178,6 +179,36 @@ theorem zeta_kind_consistent : ∀ i < 4, ∀ j < 4, ∀ k < 4,
     | exact ⟨_, rfl, congrArg Except.ok (neg_one_mul _)⟩
 
 end consistency
+
+/-! ### The tuples `helicity/align/dpd.py` really requests
+
+`dpdRequests` is regenerated by driving the alignment generator of `dpd.py` with a recorder in
+place of `formulate_zeta_angle`. -/
+
+/-- Every request is `(rotated state, aligned subsystem, reference subsystem)` with the reference
+passed last, all indices in range, and hits a table entry for which an angle is formulated. -/
+theorem dpd_requests_defined : ∀ r ∈ dpdRequests,
+    r.2.1 < 4 ∧ r.2.2.1 < 4 ∧ r.2.2.2 < 4 ∧ r.2.2.2 = r.1 ∧
+      (zetaKind r.2.1 r.2.2.1 r.2.2.2 = Kind.zero ∨ zetaKind r.2.1 r.2.2.1 r.2.2.2 = Kind.acos ∨
+        zetaKind r.2.1 r.2.2.1 r.2.2.2 = Kind.negAcos) := by
+  decide
+
+/-- For every reference subsystem, every rotated state 0..3 and every aligned subsystem 1..3 is
+requested (nothing is silently left unaligned). -/
+theorem dpd_requests_complete : ∀ ref ∈ [1, 2, 3], ∀ i < 4, ∀ j ∈ [1, 2, 3],
+    (ref, i, j, ref) ∈ dpdRequests := by
+  decide
+
+/-- Hence every angle the alignment asks for is returned (no exception). -/
+theorem dpd_requests_formulated (m_0 m_1 m_2 m_3 m_12 m_13 m_23 : ℝ) : ∀ r ∈ dpdRequests,
+    ∃ a, zetaAngle r.2.1 r.2.2.1 r.2.2.2 m_0 m_1 m_2 m_3 m_12 m_13 m_23 = .ok a := by
+  intro r hr
+  obtain ⟨h1, h2, h3, _, hk⟩ := dpd_requests_defined r hr
+  have hc := zeta_kind_consistent m_0 m_1 m_2 m_3 m_12 m_13 m_23 _ h1 _ h2 _ h3
+  rcases hk with hk | hk | hk <;> rw [hk] at hc
+  · exact ⟨_, hc.1⟩
+  · obtain ⟨x, _, ha⟩ := hc; exact ⟨_, ha⟩
+  · obtain ⟨x, _, ha⟩ := hc; exact ⟨_, ha⟩
 
 /-! ### Arguments of all arccosines lie in [−1, 1] on the physical region
 
@@ -712,6 +743,67 @@ theorem kallen_parent_of_event (h : Masses p1 p2 p3 m_0 m_1 m_2 m_3 m_12 m_13 m_
   · simp only [Kallen, h.h0, h.h1, h.h2, h.h3, h.h12, h.h13, h.h23, V4.dot, V4.dot3, V4.add_E,
       V4.add_x, V4.add_y, V4.add_z]
     ring
+
+/-- Conversely, every point of the region described in the library's variables — `m₀ > 0`, the
+Mandelstam constraint, `Kibble ≤ 0`, particle 1 not at rest (`λ(m₀², m₁², σ₁) > 0`) — is the set of
+invariant masses of an event in the parent rest frame, with the energies
+`E_i = (m₀² + m_i² − σ_i)/(2 m₀)`. -/
+theorem event_of_dalitz_point (hm0 : 0 < m_0)
+    (hc : m_12 ^ 2 + m_13 ^ 2 + m_23 ^ 2 = m_0 ^ 2 + m_1 ^ 2 + m_2 ^ 2 + m_3 ^ 2)
+    (hK : Kibble (m_23 ^ 2) (m_13 ^ 2) (m_12 ^ 2) m_0 m_1 m_2 m_3 ≤ 0)
+    (h1 : 0 < Kallen (m_0 ^ 2) (m_1 ^ 2) (m_23 ^ 2)) :
+    ∃ q1 q2 q3 : V4, Masses q1 q2 q3 m_0 m_1 m_2 m_3 m_12 m_13 m_23 ∧
+      (q1 + q2 + q3).x = 0 ∧ (q1 + q2 + q3).y = 0 ∧ (q1 + q2 + q3).z = 0 ∧
+      (q1 + q2 + q3).E = m_0 ∧ q1.E = (m_0 ^ 2 + m_1 ^ 2 - m_23 ^ 2) / (2 * m_0) ∧
+      q2.E = (m_0 ^ 2 + m_2 ^ 2 - m_13 ^ 2) / (2 * m_0) ∧
+      q3.E = (m_0 ^ 2 + m_3 ^ 2 - m_12 ^ 2) / (2 * m_0) := by
+  have e : m_12 ^ 2 = m_0 ^ 2 + m_1 ^ 2 + m_2 ^ 2 + m_3 ^ 2 - m_13 ^ 2 - m_23 ^ 2 := by linarith
+  have hm : m_0 ≠ 0 := hm0.ne'
+  set E1 := (m_0 ^ 2 + m_1 ^ 2 - m_23 ^ 2) / (2 * m_0) with hE1d
+  set E2 := (m_0 ^ 2 + m_2 ^ 2 - m_13 ^ 2) / (2 * m_0) with hE2d
+  set q := Real.sqrt (Kallen (m_0 ^ 2) (m_1 ^ 2) (m_23 ^ 2)) / (2 * m_0) with hqd
+  have hqpos : 0 < q := div_pos (Real.sqrt_pos.mpr h1) (by positivity)
+  have hE1 : 2 * m_0 * E1 = m_0 ^ 2 + m_1 ^ 2 - m_23 ^ 2 := by rw [hE1d]; field_simp
+  have hE2 : 2 * m_0 * E2 = m_0 ^ 2 + m_2 ^ 2 - m_13 ^ 2 := by rw [hE2d]; field_simp
+  have hq : q ^ 2 = E1 ^ 2 - m_1 ^ 2 := by
+    rw [hqd, div_pow, Real.sq_sqrt h1.le, hE1d]
+    unfold Kallen
+    field_simp
+    ring
+  set d := E1 * E2 - (m_12 ^ 2 - m_1 ^ 2 - m_2 ^ 2) / 2 with hdd
+  set x := d / q with hxd
+  have hd : q * x = d := by rw [hxd]; field_simp
+  -- |p⃗₁|²|p⃗₂|² − (p⃗₁·p⃗₂)² = −Kibble / (64 m₀⁴) ≥ 0
+  have hgram : (E1 ^ 2 - m_1 ^ 2) * (E2 ^ 2 - m_2 ^ 2) - d ^ 2
+      = -Kibble (m_23 ^ 2) (m_13 ^ 2) (m_12 ^ 2) m_0 m_1 m_2 m_3 / (64 * m_0 ^ 4) := by
+    rw [hdd, hE1d, hE2d]
+    unfold Kibble Kallen
+    rw [e]
+    field_simp
+    ring
+  have hw : 0 ≤ E2 ^ 2 - m_2 ^ 2 - x ^ 2 := by
+    have h64 : 0 ≤ -Kibble (m_23 ^ 2) (m_13 ^ 2) (m_12 ^ 2) m_0 m_1 m_2 m_3 / (64 * m_0 ^ 4) :=
+      div_nonneg (by linarith) (by positivity)
+    have : E2 ^ 2 - m_2 ^ 2 - x ^ 2 = ((E1 ^ 2 - m_1 ^ 2) * (E2 ^ 2 - m_2 ^ 2) - d ^ 2) / q ^ 2 := by
+      rw [hxd, ← hq]; field_simp
+    rw [this, hgram]
+    exact div_nonneg h64 (by positivity)
+  set y := Real.sqrt (E2 ^ 2 - m_2 ^ 2 - x ^ 2) with hyd
+  have hxy : x ^ 2 + y ^ 2 = E2 ^ 2 - m_2 ^ 2 := by rw [hyd, Real.sq_sqrt hw]; ring
+  refine ⟨⟨E1, q, 0, 0⟩, ⟨E2, x, y, 0⟩, ⟨m_0 - E1 - E2, -q - x, -y, 0⟩,
+    masses_of_components E1 E2 q x y hc hE1 hE2 hq hxy (by rw [hd]), ?_, ?_, ?_, ?_, rfl, rfl, ?_⟩
+  · simp only [V4.add_x]; ring
+  · simp only [V4.add_y]; ring
+  · simp only [V4.add_z]; ring
+  · simp only [V4.add_E]; ring
+  · show m_0 - E1 - E2 = (m_0 ^ 2 + m_3 ^ 2 - m_12 ^ 2) / (2 * m_0)
+    rw [hE1d, hE2d, e]; field_simp; ring
+
+/-- Inside the mass thresholds these energies are non-negative (so the event is physical). -/
+theorem energy_nonneg_of_threshold (m0 mi mjk : ℝ) (hm0 : 0 < m0) (hmi : 0 ≤ mi) (hmjk : 0 ≤ mjk)
+    (hthr : mjk ≤ m0 - mi) : 0 ≤ (m0 ^ 2 + mi ^ 2 - mjk ^ 2) / (2 * m0) := by
+  apply div_nonneg _ (by positivity)
+  nlinarith [mul_nonneg hmi hm0.le, mul_nonneg hmjk hmjk, mul_self_le_mul_self hmjk hthr]
 
 end events
 
